@@ -230,3 +230,36 @@ Theorem C09_wrapper_sound : forall r,
      (forall mx, e_mcl r = Some mx -> (l <= mx)%Z)).
 Proof. exact wrapper_sound. Qed.
 Print Assumptions C09_wrapper_sound.
+
+(* buffering wrappers (io.BufferedReader, io.TextIOWrapper, anything written against io.RawIOBase)
+   as consumers: whatever sequence of raw readinto calls (any buffer kind, any buffer size of the
+   wrapper's own choosing), raw readall calls and deliveries from the front of its private buffer a
+   wrapper performs, up to the first exception it propagates: the UNDERLYING stream is never read
+   past the limit although the wrapper reads ahead, _pos = bytes consumed, what the application
+   received followed by what is still buffered is exactly what was consumed (a prefix of the
+   client's bytes; only a raw readall that raises loses the bytes it had taken), and the only
+   exceptions are ClientDisconnected / RequestEntityTooLarge *)
+Theorem C09_buffering_wrapper : forall D lim m sched ri ops,
+  match wrun (ls_init lim m) (und_init D sched ri) [] ops with
+  | (outs, buf, e, s, u) =>
+    u_taken u ++ u_data u = D /\ pos s = lenN (u_taken u) /\ lenN (u_taken u) <= lim /\
+    exists lost, u_taken u = concat outs ++ buf ++ lost /\
+      match e with Some e => allowed e | None => lost = [] end
+  end.
+Proof. exact buffering_wrapper. Qed.
+Print Assumptions C09_buffering_wrapper.
+
+(* a wrapper with an 8-byte buffer over a 5-byte declared body of a longer input: it asks for 8, 8, 8
+   and can never take more than 5 *)
+Example C09_buffering_wrapper_example :
+  wrun (ls_init 5 false) (und_init [1; 2; 3; 4; 5; 6; 7] [RBytes 2] true) []
+       [WFill KMemoryview 8; WTake 1; WFill KMemoryview 8; WFill KMemoryview 8; WTake 9]
+  = ([[1]; [2; 3; 4; 5]], [], None, {| pos := 5; limit := 5; is_max := false |},
+     {| u_data := [6; 7]; u_taken := [1; 2; 3; 4; 5]; u_sched := []; u_has_readinto := true; u_calls := 2 |}).
+Proof. vm_compute. reflexivity. Qed.
+Print Assumptions C09_buffering_wrapper_example.
+
+(* tell() is _pos, hence (C09_invariant) the number of bytes consumed from the underlying stream *)
+Theorem C09_tell : forall s, tell s = pos s.
+Proof. exact tell_pos. Qed.
+Print Assumptions C09_tell.
